@@ -22,6 +22,10 @@ behaviour under real OS interleavings.  Four kinds of cases tie the model to the
         components and its list of process-wide / shared objects; plus the list of carriers the fixed probes are
         labelled with (a component without a probe is reported).  A tripwire on today's carriers, not a consequence of
         the property: no theorem is about it;
+        Threads of a run may carry EQUAL NAMES (a home-made pool calling every worker "worker"; the empty name; a thread
+        renaming itself in mid-flight; a successor with the name of its dead predecessor): the name is an attribute the
+        program chooses, the model has no name component (renaming = `note`, a no-op), so any dependence of a carrier or
+        of the deduplication scope on it shows as a disagreement with the model and with the run alone;
   hist  K threads execute generated histories of operations IN LOCK-STEP under a generated schedule (so thread B acts
         while thread A is inside a task, in the middle of a flush, in asyncio mode, holds an in-flight deduplicated
         task, is inside `with V.override(..)` of a scoped value both use ...): every observation is compared with the
@@ -59,6 +63,10 @@ HEADLINE = [
     # the library as written with threads that were not created through threading.Thread
     "AsynqModel.Threads.C16_cpython_noninterference_partial",
     "AsynqModel.Threads.C16_alien_ident_counterexample",
+    # attributes of a thread that are not its identity (its name): never looked at by the library as written
+    "AsynqModel.Threads.C16_attr_key_separates_iff",
+    "AsynqModel.Threads.C16_thread_name_key_counterexample",
+    "AsynqModel.Threads.C16_rename_is_noop",
     # necessity: the same step with a keying that does not separate the threads / objects shared by the program / the
     # cut of the strict comparison under COLLECT_PERF_STATS / the start context
     "AsynqModel.Threads.C16_no_thread_in_key_counterexample",
@@ -85,20 +93,22 @@ RULE = ("inv: one AST inventory of asynq/*.py per run + the list of probed carri
         "(2-6 threads, 6-40 operations per thread over scheduler/debug-batch/profiler/deduplicate/asyncio-mode, nested task "
         "bodies up to depth 3, flushes paused in the middle; 35% of them with some threads also using the scoped value and "
         "the alru_cache function that all threads of the run share; 15% with some threads started in a copy of a context "
-        "that is in asyncio mode - Thread(target=copy_context().run) or asyncio.to_thread inside fn.asyncio()) under a "
-        "generated schedule (fine / bursty / round-robin; 30% with identical histories on all threads), plus a FIXED list "
+        "that is in asyncio mode - Thread(target=copy_context().run) or asyncio.to_thread inside fn.asyncio(); 25% with "
+        "some or all threads of the run carrying EQUAL thread names (one name class is the empty name), half of those with "
+        "threads renaming themselves in mid-flight) under a generated schedule (fine / bursty / round-robin; 30% with identical histories on all threads), plus a FIXED list "
         "of write-in-A/observe-in-B probes: one per carrier of the model's component list, one for the shared objects, one "
         "thread-lifetime probe and two start-context probes, each with both COLLECT_PERF_STATS settings, and one "
-        "thread-lifetime probe with threads not created through threading.Thread (19 = 9 x 2 + 1); quick 400 / thorough "
+        "thread-lifetime probe with threads not created through threading.Thread plus three thread-name probes per setting - equal names while a deduplicated task is in flight, the empty name with a rename in mid-flight, a successor with its dead predecessor's name (25 = 12 x 2 + 1); quick 400 / thorough "
         "6000. life: lock-step histories whose threads live ONE AFTER THE OTHER - each is created after its predecessor "
         "was joined, on the predecessor's recycled OS thread ident (candidate threads with another ident are parked, up to "
         "200 tries; feature thread-ident-recycled counts the cases where every successor got it), every thread leaves an "
         "un-awaited deduplicated task and every later thread asks for the same function and key; quick 40 / thorough 400 "
-        "with threading.Thread threads, quick 12 / thorough 120 with _thread.start_new_thread threads (COLLECT_PERF_STATS "
+        "with threading.Thread threads (40% of them: the successor also carries its dead predecessor's NAME), quick 12 / thorough 120 with _thread.start_new_thread threads (COLLECT_PERF_STATS "
         "off, the left-behind task is asked for at top level and never run, all other deduplicate keys private to one "
         "thread). prog: 2-16 free-running threads started together (switch interval 1e-6; 3 repetitions quick / 5 "
         "thorough) interpreting generated asynq programs that share deduplicated functions, keys and batch names, 30% with "
-        "threads serving asynq functions through asyncio.run(fn.asyncio()); quick 160 + one per thread count 2..16 / "
+        "threads serving asynq functions through asyncio.run(fn.asyncio()), 25% with equal thread names; quick 160 + one per "
+        "thread count 2..16 (identical programs; every even count with ONE name for all threads) / "
         "thorough 700 + 15. non-trivial = a hist case with >= 2 threads, >= 8 steps and at least one thread inside a task "
         "body while others act, or a prog case with >= 2 threads, a flush of >= 2 items and >= 1 deduplicate hit; distinct "
         "by case hash")
@@ -138,6 +148,11 @@ ASSUMPTIONS = [
     "C16_alien_ident_counterexample); generated only as thread lifetimes with COLLECT_PERF_STATS off, the inherited "
     "task is never run",
     "threads do not hand asynq objects (tasks, batch items, contexts) to each other",
+    "Thread objects compare by identity (threading.Thread defines no __eq__/__hash__): cache_key compares the Thread "
+    "object with ==, so a Thread SUBCLASS that declares two threads equal (e.g. __eq__/__hash__ by name) merges their "
+    "deduplication scopes by the program's own definition of 'the same thread' (observed on the current tree; it is "
+    "`Keying.byAttr`, C16_attr_key_separates_iff); not generated.  Thread NAMES are generated: equal names, the empty name "
+    "(TaskScheduler.__init__ then names the scheduler after the ident), renaming in mid-flight",
     "programs are free of flush-priority ties (a tie is broken by set iteration order, i.e. by object addresses, "
     "also single-threaded); tie-prone generated programs are collapsed to one batch name",
     "asyncio event loops (one ContextVar context per asyncio task) are C15's subject; here a thread is one context",
@@ -161,7 +176,24 @@ SIMPLE_IN_BLOCK = ["getSched", "snap", "getActive", "mkItem", "profIncr", "profF
                    "lruCall", "dedupCall"]
 
 
-def _gen_hops(rng, n, shared=False, mode0=False):
+def thread_name(c):
+    """the name a thread of name class `c` carries (class 0 = the empty, falsy name: TaskScheduler.__init__ then names
+    the scheduler after the thread ident).  Threads of one run with the same class have EQUAL names - a home-made pool
+    that calls all its workers "worker"; a thread's name is an attribute the program chooses, not its identity"""
+    return "" if not c else "c16-worker-%d" % c
+
+
+def _gen_names(rng, k, p_same=0.4):
+    """name classes of the k threads of a run such that at least two threads carry the same name"""
+    if rng.random() < p_same:
+        return [rng.choice([0, 1, 1, 2])] * k
+    pool = rng.sample([0, 1, 2, 3], rng.randint(1, min(3, max(1, k - 1))))
+    names = [rng.choice(pool) for _ in range(k)]
+    names[rng.randrange(1, k)] = names[0]
+    return names
+
+
+def _gen_hops(rng, n, shared=False, mode0=False, rename=False):
     """hops of one thread for a lock-step history; keeps the little bookkeeping needed for validity: nesting depth,
     asyncio-mode flag (a task created in asyncio mode is a coroutine: no body), batch sizes (no priority ties).
     `shared`: the thread also uses the objects that the threads of the run share by design (one AsyncScopedValue, one
@@ -186,7 +218,13 @@ def _gen_hops(rng, n, shared=False, mode0=False):
         if shared:
             choices += ["svGet", "svSet", "svBlock", "lruCall"]
             weights += [2.5, 1.2, 2, 2.5]
+        if rename:       # the thread gives itself another name in mid-flight (threading.current_thread().name = ..)
+            choices.append("setName")
+            weights.append(1.5)
         c = rng.choices(choices, weights)[0]
+        if c == "setName":
+            hops.append(["setName", rng.randrange(4)])
+            continue
         if c in ("svGet", "svSet", "lruCall"):
             hops.append(_simple_hop(rng, c, sizes))
             continue
@@ -290,17 +328,23 @@ def gen_hist(rng, k=None, n=None):
     # 2 = asyncio.to_thread from inside fn.asyncio() served by another thread)
     inh = rng.random() < 0.15
     inherit = [(rng.choice([1, 1, 2]) if inh and rng.random() < 0.5 else 0) for _ in range(k)]
-    threads = [_gen_hops(rng, n, shared=users[t], mode0=inherit[t]) for t in range(k)]
+    # 25%: some threads of the run carry EQUAL thread names (one of them possibly the empty name), and half of those
+    # runs have threads that rename themselves in mid-flight
+    names = _gen_names(rng, k) if rng.random() < 0.25 else None
+    rename = names is not None and rng.random() < 0.5
+    threads = [_gen_hops(rng, n, shared=users[t], mode0=inherit[t], rename=rename) for t in range(k)]
     if rng.random() < 0.3:   # identical histories on all threads: every name and key collides
         if any(inherit) and not all(inherit):
             # the validity bookkeeping (no scheduler reset inside a task body) must hold for the threads that start
             # outside asyncio mode, where tasks really run
-            threads[0] = _gen_hops(rng, n, shared=users[0], mode0=False)
+            threads[0] = _gen_hops(rng, n, shared=users[0], mode0=False, rename=rename)
         threads = [json.loads(json.dumps(threads[0])) for _ in range(k)]
     case = {"kind": "hist", "perf": rng.randrange(2), "threads": threads,
             "order": _order(rng, threads, rng.choice(["fine", "fine", "burst", "rr"]))}
     if any(inherit):
         case["inherit"] = inherit
+    if names is not None:
+        case["names"] = names
     return case
 
 
@@ -319,8 +363,11 @@ def gen_life(rng, k=None):
             first.append(["taskEnter", f, key])
             first.append(["taskLeave"])
         threads.append(first + hops + [["dedupCall", f, key]])
-    return {"kind": "hist", "perf": rng.randrange(2), "threads": threads, "life": 1,
+    case = {"kind": "hist", "perf": rng.randrange(2), "threads": threads, "life": 1,
             "order": [t for t, hops in enumerate(threads) for _ in hops]}
+    if rng.random() < 0.4:    # the successor carries the NAME of its dead predecessor as well (a pool re-creating "worker")
+        case["names"] = _gen_names(rng, k, p_same=0.7)
+    return case
 
 
 ALIEN_KEY = (1, 2)      # the (function, key) whose task every thread of an alien-lifetime case leaves behind
@@ -399,6 +446,27 @@ def probes():
                         ["amExit"], ["amGet"], ["mkItem", 1]], perf, ["asynq_to_async", "_asyncio_mode"])
             c["inherit"] = [0, how]
             res.append(c)
+        # thread NAMES (round-5 extension): a thread's name is chosen by the program and is not its identity.  Both
+        # threads are called alike while A holds an in-flight deduplicated task / is inside a task with a batch
+        # scheduled; B renames itself to A's name in mid-flight; a later thread carries its dead predecessor's name
+        c = _probe([["dedupCall", 0, 1], ["dedupCall", 0, 1], ["taskEnter", 0, 1], ["dedupCall", 0, 1], ["mkItem", 1],
+                    ["getSched"], ["taskLeave"], ["dedupCall", 0, 1], ["dirty", 0, 1], ["dedupCall", 0, 1], ["profIncr"]],
+                   [["dedupCall", 0, 1], ["getActive"], ["mkItem", 1], ["getSched"], ["taskEnter", 0, 1], ["taskLeave"],
+                    ["profFlush"]], perf, ["tools", "DeduplicateDecorator.tasks"])
+        c["names"] = [1, 1]
+        res.append(c)
+        c = _probe([["setName", 2], ["dedupCall", 0, 1], ["taskEnter"], ["mkItem", 1], ["snap"], ["getSched"], ["amEnter"],
+                    ["amGet"], ["amExit"], ["taskLeave"], ["resetSched"], ["getSched"], ["profIncr"]],
+                   [["dedupCall", 0, 1], ["setName", 2], ["dedupCall", 0, 1], ["mkItem", 1], ["getActive"], ["getSched"],
+                    ["amGet"], ["profFlush"], ["resetSched"], ["getSched"]], perf, ["scheduler", "_state"])
+        c["names"] = [0, 0]
+        res.append(c)
+        res.append({"kind": "hist", "perf": perf, "life": 1, "probe": 1, "comp": ["tools", "DeduplicateDecorator.tasks"],
+                    "names": [1, 1],
+                    "threads": [[["dedupCall", 0, 1], ["mkItem", 1], ["profIncr"]],
+                                [["dedupCall", 0, 1], ["getActive"], ["taskEnter", 0, 1], ["taskLeave"], ["dedupCall", 0, 1],
+                                 ["mkItem", 1], ["profIncr"]]],
+                    "order": [0] * 3 + [1] * 7})
     # thread lifetimes of threads not created through threading.Thread (second audit N4c): A leaves an in-flight
     # deduplicated task and ends; B, started afterwards with _thread.start_new_thread on A's thread ident, asks for it
     res.append({"kind": "hist", "perf": 0, "life": 1, "alien": 1, "probe": 1, "comp": ["tools", "DeduplicateDecorator.tasks"],
@@ -462,7 +530,10 @@ def gen_prog(rng, k=None, reps=3):
         # one or two threads serve asynq functions through asyncio (fn.asyncio() under asyncio.run) meanwhile
         for t in rng.sample(range(k), 1 if k < 4 else 2):
             threads[t] = [["aio", rng.randint(2, 5)]] + (threads[t][:1] if rng.random() < 0.5 else [])
-    return {"kind": "prog", "perf": rng.randrange(2), "threads": threads, "dd": dd, "reps": reps}
+    case = {"kind": "prog", "perf": rng.randrange(2), "threads": threads, "dd": dd, "reps": reps}
+    if rng.random() < 0.25:   # free-running threads with equal thread names
+        case["names"] = _gen_names(rng, k)
+    return case
 
 
 # which hops WRITE / OBSERVE which carrier of the model's component list: a probe counts for the carrier it is labelled
@@ -517,6 +588,10 @@ def plan(tier, seed):
     for k in range(2, 17):
         c = gen_prog(rng, k=k, reps=2 if quick else 6)
         c["threads"] = [json.loads(json.dumps(c["threads"][0])) for _ in range(k)]
+        if k % 2 == 0:        # ... and every second thread count with one name for all threads
+            c["names"] = [1 + k % 3] * k
+        else:
+            c.pop("names", None)
         cases.append(c)
     return cases
 
@@ -535,6 +610,8 @@ def shrink(case):
                 c["order"] = [t - (1 if t > i else 0) for t in case["order"] if t != i]
                 if case.get("inherit"):
                     c["inherit"] = case["inherit"][:i] + case["inherit"][i + 1:]
+            if case.get("names"):
+                c["names"] = case["names"][:i] + case["names"][i + 1:]
             yield c
     if kind == "prog":
         # a failure of a free-running case is a race: candidates get more repetitions so that it shows again
@@ -1042,6 +1119,7 @@ class Recorder(object):
         self.sched = None
         self.handler = None
         self.barrier = None
+        self.sname = None         # the name TaskScheduler.__init__ gives a scheduler this thread creates (set at its start)
 
     # ---- records ----
     def emit(self, op, obs):
@@ -1224,6 +1302,13 @@ def env():
     def cur():
         return REG[threading.get_ident()]
 
+    def sched_name():
+        # what TaskScheduler.__init__ (scheduler.py:47-55) calls a scheduler created by the current thread now
+        n = threading.current_thread().name
+        return n if n else str(threading.current_thread().ident)
+
+    e.sched_name = sched_name
+
     # ---------------- lock-step histories ----------------
     def hop_loop(rec, inbody, tok):
         """executes the hops of this thread until the matching taskLeave / the end; a generator because inside a task
@@ -1245,11 +1330,17 @@ def env():
                 elif name == "getSched":
                     s = sch.get_scheduler()
                     tn, _, num = s.name.rpartition(" / ")
-                    rec.emit(op, ["sched", int(num), tn == threading.current_thread().name])
+                    rec.emit(op, ["sched", int(num), tn == rec.sname])
                 elif name == "resetSched":
                     rec.unhook()
                     sch.reset()
+                    rec.sname = sched_name()     # the new scheduler is named after the thread as it is called NOW
                     rec.hook()
+                    rec.emit(op, ["unit"])
+                elif name == "setName":
+                    # the thread renames itself; nothing in the library may depend on it (model: `note`, a no-op)
+                    op = ["note", 7, hop[1]]
+                    threading.current_thread().name = thread_name(hop[1])
                     rec.emit(op, ["unit"])
                 elif name == "snap":
                     rec.emit(op, rec.snap())
@@ -1576,7 +1667,7 @@ def env():
         rec.emit(["profFlush"], ["stats", stats_tokens(e.profiler.flush())])
         s = e.scheduler.get_scheduler()
         tn, _, num = s.name.rpartition(" / ")
-        rec.emit(["getSched"], ["sched", int(num) if num.isdigit() else FOREIGN, tn == threading.current_thread().name])
+        rec.emit(["getSched"], ["sched", int(num) if num.isdigit() else FOREIGN, tn == rec.sname])
         rec.emit(["amGet"], ["bool", bool(e.a2a.is_asyncio_mode())])
 
     e.run_programs = run_programs
@@ -1588,6 +1679,7 @@ def _thread_main(e, rec, fn):
     ident = e.threading.get_ident()
     REG[ident] = rec
     try:
+        rec.sname = e.sched_name()
         rec.hook()
         if rec.barrier is not None:
             rec.barrier.wait(30)     # free-running threads start together
@@ -1636,10 +1728,17 @@ def _make_thread(e, rec, fn, name, how=0):
     return e.threading.Thread(target=_thread_main, args=(e, rec, fn), name=name, daemon=True)
 
 
-def _run_threads(e, recs, fns, label, inherit=None):
+def _name_of(names, label, t):
+    """the name of thread t of a run: its own (distinct from every other thread's) unless the case gives name classes"""
+    if names and t < len(names):
+        return thread_name(names[t])
+    return "c16-%s-%d" % (label, t)
+
+
+def _run_threads(e, recs, fns, label, inherit=None, names=None):
     ths = []
     for rec, fn in zip(recs, fns):
-        th = _make_thread(e, rec, fn, "c16-%s-%d" % (label, rec.t), (inherit or {}).get(rec.t, 0))
+        th = _make_thread(e, rec, fn, _name_of(names, label, rec.t), (inherit or {}).get(rec.t, 0))
         ths.append(th)
     import time
     for th in ths:
@@ -1689,7 +1788,7 @@ class _Alien(object):
         self.done.wait(timeout)
 
 
-def _run_successors(e, recs, fns, label, alien=False):
+def _run_successors(e, recs, fns, label, alien=False, names=None):
     """thread lifetimes: the threads run ONE AFTER THE OTHER; thread t+1 is created only after thread t has finished and
     been joined, and it is created on the OS thread ident that thread t gave back: CPython hands the ident (the stack) of
     a finished thread to a later one a moment after join() returns, so candidate threads are created until one has that
@@ -1720,7 +1819,7 @@ def _run_successors(e, recs, fns, label, alien=False):
                 if alien:
                     th = _Alien(e, main)
                 else:
-                    th = threading.Thread(target=main, name="c16-%s-%d" % (label, rec.t), daemon=True)
+                    th = threading.Thread(target=main, name=_name_of(names, label, rec.t), daemon=True)
                     th.start()
                 if prev is None or th.ident == prev or tries >= 200:
                     chosen = (th, box)
@@ -1792,6 +1891,14 @@ def run_case(case):
     feats = ["kind=" + kind, "threads=%d" % k, "perf=%d" % perf]
     inherit = {t: int(h) for t, h in enumerate(case.get("inherit") or []) if h and t < k} if kind == "hist" else {}
     alien = kind == "hist" and bool(case.get("life")) and bool(case.get("alien"))
+    names = [int(c) for c in case["names"]][:k] if case.get("names") and not alien else None
+    if names and len(names) == k:
+        feats.append("thread-names=%s" % ("all-equal" if len(set(names)) == 1 and k > 1 else
+                                          "some-equal" if len(set(names)) < k else "distinct"))
+        if 0 in names:
+            feats.append("thread-name-empty")
+    else:
+        names = None
     pre = ["(mode %d 1)" % t for t in sorted(inherit)]
     for t in sorted(inherit):
         feats.append("start-context=%s" % ("copy_context.run" if inherit[t] == 1 else "asyncio.to_thread"))
@@ -1823,7 +1930,7 @@ def run_case(case):
             for t in range(k):
                 sink = []
                 rec = Recorder(e, t, sink, case, World(e), hops=case["threads"][t] if kind == "hist" else None)
-                _run_threads(e, [rec], [fn_for(t)], "a%d" % cid, inherit)     # started the same way as in the concurrent run
+                _run_threads(e, [rec], [fn_for(t)], "a%d" % cid, inherit, names)     # started the same way as in the concurrent run
                 alone.append(sink)
                 tie = tie or rec.tie
                 if attempt == 1 or not rec.tie:
@@ -1853,7 +1960,7 @@ def run_case(case):
                 for rec in recs:
                     rec.barrier = barrier
             if life:
-                n, idents = _run_successors(e, recs, [fn_for(t) for t in range(k)], "c%d-%d" % (cid, r), alien)
+                n, idents = _run_successors(e, recs, [fn_for(t) for t in range(k)], "c%d-%d" % (cid, r), alien, names)
                 feats.append("thread-lifetimes" + ("-not-threading.Thread" if alien else ""))
                 feats.append("thread-ident-recycled" if n == k - 1 else "thread-ident-not-recycled")
                 if alien:
@@ -1861,7 +1968,7 @@ def run_case(case):
                     cls = sorted(set(idents), key=idents.index)
                     pre += ["(alien %d %d)" % (t, cls.index(i)) for t, i in enumerate(idents)]
             else:
-                _run_threads(e, recs, [fn_for(t) for t in range(k)], "c%d-%d" % (cid, r), inherit)
+                _run_threads(e, recs, [fn_for(t) for t in range(k)], "c%d-%d" % (cid, r), inherit, names)
             for rec in recs:
                 note(rec)
             for (t, op, obs) in sink:
@@ -1888,5 +1995,5 @@ def run_case(case):
         nontrivial = k >= 2 and stats["maxflush"] >= 2 and stats["hits"] >= 1
     key = None
     if nontrivial:
-        key = hashlib.sha1(json.dumps([kind, case["threads"], case.get("order"), case.get("dd"), perf]).encode()).hexdigest()[:16]
+        key = hashlib.sha1(json.dumps([kind, case["threads"], case.get("order"), case.get("dd"), perf] + ([names] if names else [])).encode()).hexdigest()[:16]
     return {"lines": lines, "features": feats, "nontrivial": key}
